@@ -106,7 +106,11 @@ func numPool(thorough bool) []*m.Val {
 }
 
 func strPool(thorough bool) []*m.Val {
-	ss := []string{"", "a", "b", "ab", "A", "é", "日本語", "😀", "a\"b", "x\ny", " ", "(", "[a-z]+", "^a", "a*", "\\d"}
+	ss := []string{"", "a", "b", "ab", "A", "é", "日本語", "😀", "a\"b", "x\ny", " ", "(", "[a-z]+", "^a", "a*", "\\d",
+		// Go strings a host may hand over that are not well-formed UTF-8: a text cut in the middle
+		// of a character (tail / head missing), a stray continuation byte, a lone lead byte, an
+		// encoded surrogate - every invalid byte counts as one character
+		"日本語"[:5], "日本語"[1:], "a\x80b", "caf\xe9", "\xed\xa0\x80"}
 	if thorough {
 		ss = append(ss, gen.StrPool...)
 	}
